@@ -50,14 +50,16 @@ def exhaustive(tier):
                 rows = rows[:n] if n >= 2 else [list(v)]
                 rows_b = [list(w), list(v)] + [zero] * (n - 2)
                 rows_b = rows_b[:n] if n >= 2 else [list(w)]
-                for gen in ('hr', 'spa', 'spa_shared'):
-                    yield {'kind': 'instance', 'gen': gen, 'n': n, 'rows1': rows, 'rows2': rows_b}
+                for gen in ('hr', 'spa', 'spa_shared', 'spa_interleaved'):
+                    yield {'kind': 'instance', 'gen': gen, 'n': n, 'rows1': rows, 'rows2': rows_b,
+                           'caps': (sum(v) + 2 * sum(w) + n) % 4}
     for n in range(1, NMAX[tier] + 1):
         for vec in itertools.product((0, 1), repeat=n):
             for k, pl in enumerate(PLACEMENTS):
                 # identity order for two placements, reversed for the other two, alternating
                 rev = (k + sum(vec)) % 2 == 1
                 yield {'n': n, 'vec': list(vec), 'placement': pl, 'as_numpy': True,
+                       'cap': [None, 0, 1][(sum(vec) + n + k) % 3],
                        'perm': list(range(n, 0, -1)) if rev else list(range(1, n + 1))}
 
 
@@ -85,7 +87,9 @@ def _cases(draw):
         tp = draw(st.sampled_from([30, 50, 70, 100]))
         rows1 = [[1 if pct(draw) < tp else 0 for _ in range(n)] for _ in range(n)]
         rows2 = [[1 if pct(draw) < tp else 0 for _ in range(n)] for _ in range(n)]
-        return {'kind': 'instance', 'gen': draw(st.sampled_from(['hr', 'spa', 'spa_shared'])), 'n': n,
+        return {'kind': 'instance', 'gen': draw(st.sampled_from(['hr', 'spa', 'spa_shared',
+                                                              'spa_interleaved'])),
+                'caps': draw(st.sampled_from([0, 1, 2, 3])), 'n': n,
                 'rows1': rows1, 'rows2': rows2}
     pl = draw(st.sampled_from(PLACEMENTS))
     as_numpy = draw(st.booleans())
@@ -93,7 +97,8 @@ def _cases(draw):
     tp = draw(st.sampled_from([10, 30, 50, 70, 90] if n <= 60 else [0, 3, 10, 30]))
     perm = list(draw(st.permutations(list(range(1, n + 1)))))
     vec = [1 if pct(draw) < tp else 0 for _ in range(n)]
-    return {'n': n, 'vec': vec, 'placement': pl, 'as_numpy': as_numpy, 'perm': perm}
+    return {'n': n, 'vec': vec, 'placement': pl, 'as_numpy': as_numpy, 'perm': perm,
+            'cap': draw(st.sampled_from([None, None, 0, 1]))}
 
 
 def strategy(tier):
@@ -152,7 +157,12 @@ def check_writer(tokens, perm, vec):
     return groups
 
 
-def build_file(placement, n, liststr):
+def build_file(placement, n, liststr, cap=None):
+    cap = n if cap is None else cap
+    return _build_file(placement, n, liststr, cap)
+
+
+def _build_file(placement, n, liststr, cap):
     if placement == 'first2':
         lines = ['1 %d' % n, '1: ' + liststr] + ['%d: 0: 1: ' % (j + 1) for j in range(n)]
         return '\n'.join(lines) + '\n', 2, False
@@ -162,10 +172,10 @@ def build_file(placement, n, liststr):
         return '\n'.join(lines) + '\n', 3, False
     if placement == 'hospital':
         lines = ['%d 1' % n] + ['%d: 1' % (i + 1) for i in range(n)] + \
-            ['1: 0: %d: %s' % (n, liststr)]
+            ['1: 0: %d: %s' % (cap, liststr)]
         return '\n'.join(lines) + '\n', 2, True
     lines = ['%d 1 1' % n] + ['%d: 1' % (i + 1) for i in range(n)] + ['1: 0: %d: 1' % n] + \
-        ['1: 0: %d: %d: %s' % (n, n, liststr)]
+        ['1: 0: %d: %d: %s' % (cap, cap, liststr)]
     return '\n'.join(lines) + '\n', 3, True
 
 
@@ -214,21 +224,30 @@ def run_instance(case):
     p2 = [list(p) for p in perms2]
     n3 = n2
     plec = list(range(1, n2 + 1))
-    if case['gen'] == 'spa_shared':
+    if case['gen'] in ('spa_shared', 'spa_interleaved'):
         # two projects per lecturer: every student has several pairs with one lecturer, all of
         # which carry the rank of the student's single entry on that lecturer's list
         n3 = (n2 + 1) // 2
         plec = [j // 2 + 1 for j in range(n2)]
+        if case['gen'] == 'spa_interleaved':
+            # a lecturer's projects are not a block of consecutive numbers: 1 2 .. n3 1 2 ..
+            # written from the highest lecturer down, so that spans enclose one another
+            plec = [n3 - (j % n3) for j in range(n2)]
         perms2, rows2 = perms2[:n3], rows2[:n3]
         ties2, p2 = ties2[:n3], p2[:n3]
+    # upper quotas of the second side: roomy, or 0 / 1 for some agents (a list is a list
+    # whatever the capacity of its owner)
+    capsel = case.get('caps', 0)
+    cap2 = [n1 if (capsel == 0 or (k + capsel) % 3) else (k + capsel) % 2 for k in range(n2)]
+    cap3 = [n1 if (capsel == 0 or (k + capsel) % 3) else (k + capsel) % 2 for k in range(n3)]
     if case['gen'] == 'hr':
         text = call_repo('create_instance', Generator_ha_sm_hr().create_instance, n1, n2, p1,
-                         ties1, p2, ties2, [0] * n2, [n1] * n2, 'info\n')
+                         ties1, p2, ties2, [0] * n2, cap2, 'info\n')
         na = 2
     else:
         text = call_repo('create_instance', Generator_spa().create_instance, n1, n2, n3, p1, ties1,
                          plec, [0] * n2, [n1] * n2, p2, ties2, [0] * n3,
-                         [n1] * n3, [n1] * n3, 'info\n')
+                         cap3, cap3, 'info\n')
         na = 3
     lines = text.split('\n')
     want1 = [expected_groups(perms1[i], rows1[i]) for i in range(n1)]
@@ -285,7 +304,7 @@ def run_case(case):
         a_perm, a_vec = list(perm), list(vec)
     tokens = call_repo('create_string_pref', gs.create_string_pref, a_perm, a_vec)
     groups = check_writer(list(tokens), perm, vec)
-    text, na, twopl = build_file(pl, n, ' '.join(tokens))
+    text, na, twopl = build_file(pl, n, ' '.join(tokens), case.get('cap'))
     path = solverio.write_instance(text)
     argv = ['-f', path, '-na', str(na)] + (['-twopl'] if twopl else [])
     try:
